@@ -214,26 +214,40 @@ pub struct GSpec {
     pub rprops: Vec<((usize, usize, usize), Vec<(String, MV)>)>,
 }
 
+/// property values are typed by key most of the time (k numeric, s string, f boolean, w numeric) so that
+/// predicates over them vary between rows; the rest is any scalar (mixed-type columns, NaN, signed zero, ...)
+pub fn gen_prop(r: &mut Rng, key: &str, plain: bool) -> MV {
+    if plain { return gen_plain_scalar(r); }
+    match (key, r.below(10)) {
+        ("k", 0..=5) | ("w", 0..=5) => MV::Int(r.range(0, 3)),
+        ("k", 6) | ("w", 6) => MV::Float(*r.pick(&FLOAT_PALETTE)),
+        ("k", 7) | ("w", 7) => MV::Int(*r.pick(&INT_PALETTE)),
+        ("s", 0..=6) => MV::Str(r.pick(&STR_PALETTE).to_string()),
+        ("f", 0..=6) => MV::Bool(r.chance(1, 2)),
+        _ => gen_scalar(r),
+    }
+}
+
 pub fn gen_graph(r: &mut Rng, plain: bool) -> GSpec {
-    let n = 1 + r.below(5) as usize;
+    let n = 2 + r.below(5) as usize;
     let mut g = GSpec::default();
     for _ in 0..n {
         let mut labels = vec![];
         for l in 0..LABELS.len() {
-            if r.chance(1, 3) { labels.push(l); }
+            if r.chance(1, 2) { labels.push(l); }
         }
         let mut props = vec![];
         for k in NODE_KEYS {
-            if r.chance(2, 3) {
-                let v = if plain { gen_plain_scalar(r) } else { gen_scalar(r) };
+            if r.chance(4, 5) {
+                let v = gen_prop(r, k, plain);
                 if v != MV::Null { props.push((k.to_string(), v)); }
             }
         }
         g.nodes.push(GNode { labels, props });
     }
-    let m = r.below(9) as usize;
+    let m = 2 + r.below(9) as usize;
     for _ in 0..m {
-        let e = match r.below(5) {
+        let e = match r.below(6) {
             0 if !g.rels.is_empty() => *r.pick(&g.rels), // parallel relationship
             1 => { let a = r.below(n as u64) as usize; (a, r.below(2) as usize, a) } // self loop
             _ => (r.below(n as u64) as usize, r.below(2) as usize, r.below(n as u64) as usize),
@@ -244,8 +258,8 @@ pub fn gen_graph(r: &mut Rng, plain: bool) -> GSpec {
     keys.sort();
     keys.dedup();
     for k in keys {
-        if r.chance(1, 2) {
-            let v = if plain { gen_plain_scalar(r) } else { gen_scalar(r) };
+        if r.chance(2, 3) {
+            let v = gen_prop(r, "w", plain);
             if v != MV::Null { g.rprops.push((k, vec![("w".to_string(), v)])); }
         }
     }
@@ -482,7 +496,7 @@ impl<'a> ExGen<'a> {
         self.sc.vars.iter().filter(|(_, ty, _)| *ty == t).map(|(v, _, _)| *v).collect()
     }
     fn lit_int(&mut self) -> Ex {
-        let v = if self.r.chance(1, 4) { *self.r.pick(&INT_PALETTE) } else { self.r.range(-3, 8) };
+        let v = if self.r.chance(1, 6) { *self.r.pick(&INT_PALETTE) } else { self.r.range(-1, 4) };
         Ex::Lit(MV::Int(if v == i64::MIN { 0 } else { v }))
     }
     fn lit_float(&mut self) -> Ex {
@@ -499,7 +513,7 @@ impl<'a> ExGen<'a> {
         let rels = self.vars_of(Ty::Rel);
         let anys = self.vars_of(Ty::Any);
         match self.r.below(12) {
-            0..=3 if !nodes.is_empty() => { self.note("prop"); Ex::Prop(*self.r.pick(&nodes), self.r.pick(&NODE_KEYS).to_string()) }
+            0..=3 if !nodes.is_empty() => { self.note("prop"); let k = if self.r.chance(1, 2) { "k" } else { *self.r.pick(&NODE_KEYS) }; Ex::Prop(*self.r.pick(&nodes), k.to_string()) }
             4 if !rels.is_empty() => { self.note("prop"); Ex::Prop(*self.r.pick(&rels), "w".to_string()) }
             5..=6 if !anys.is_empty() => Ex::Var(*self.r.pick(&anys)),
             7 if !self.sc.params.is_empty() => { self.note("param"); Ex::Param(self.r.pick(&self.sc.params).0) }
@@ -571,7 +585,7 @@ impl<'a> ExGen<'a> {
     pub fn pred(&mut self, d: u32) -> Ex {
         let nodes = self.vars_of(Ty::Node);
         let bools = self.vars_of(Ty::Bool);
-        let c = self.r.below(20);
+        let c = self.r.below(24);
         match c {
             0..=3 => {
                 self.note("cmp");
@@ -618,9 +632,15 @@ impl<'a> ExGen<'a> {
             16 => { self.note("headlast"); Ex::Bin(Bin::Eq, Box::new(Ex::Fn(if self.r.chance(1, 2) { Fun::Head } else { Fun::Last }, vec![self.list(d.saturating_sub(1))])), Box::new(self.any(d.saturating_sub(1)))) }
             17 => { self.note("boollit"); Ex::Lit(if self.r.chance(1, 3) { MV::Null } else { MV::Bool(self.r.chance(1, 2)) }) }
             _ => {
+                // a numeric property against a small literal: varies between rows on most graphs
                 self.note("cmp");
-                let o = *self.r.pick(&[Bin::Eq, Bin::Lt, Bin::Ge]);
-                Ex::Bin(o, Box::new(self.any(d.saturating_sub(1))), Box::new(self.any(d.saturating_sub(1))))
+                let rels = self.vars_of(Ty::Rel);
+                let o = *self.r.pick(&[Bin::Eq, Bin::Neq, Bin::Lt, Bin::Le, Bin::Gt, Bin::Ge]);
+                let lhs = if !nodes.is_empty() && (rels.is_empty() || self.r.chance(2, 3)) { Ex::Prop(*self.r.pick(&nodes), "k".to_string()) }
+                          else if !rels.is_empty() { Ex::Prop(*self.r.pick(&rels), "w".to_string()) }
+                          else { self.any(d.saturating_sub(1)) };
+                let rhs = if self.r.chance(3, 4) { Ex::Lit(MV::Int(self.r.range(0, 3))) } else { self.num(d.saturating_sub(1)) };
+                Ex::Bin(o, Box::new(lhs), Box::new(rhs))
             }
         }
     }
@@ -706,4 +726,151 @@ pub fn mentions_other(rows: &[Vec<MV>]) -> bool {
         match v { MV::Other(_) => true, MV::List(l) => l.iter().any(other), MV::Map(m) => m.iter().any(|(_, v)| other(v)), _ => false }
     }
     rows.iter().any(|r| r.iter().any(other))
+}
+
+// ------------------------------------------------------------------ queries (mirror of Query/Clauses.v)
+
+#[derive(Clone, Copy, Debug, PartialEq)]
+pub enum Dir { Out, In, Both }
+#[derive(Clone, Debug)]
+pub struct NPat { pub var: usize, pub labels: Vec<usize> }
+#[derive(Clone, Debug)]
+pub struct RPat { pub var: usize, pub types: Vec<usize>, pub dir: Dir }
+#[derive(Clone, Debug)]
+pub struct Pattern { pub start: NPat, pub hops: Vec<(RPat, NPat)> }
+#[derive(Clone, Debug, Default)]
+pub struct Proj {
+    pub items: Vec<(usize, Ex)>,
+    pub distinct: bool,
+    pub order: Vec<(Ex, bool)>,
+    pub skip: Option<usize>,
+    pub limit: Option<usize>,
+}
+#[derive(Clone, Debug)]
+pub enum Agg { CountStar, Count(Ex), Sum(Ex), Min(Ex), Max(Ex), Collect(Ex) }
+#[derive(Clone, Debug)]
+pub enum Clause {
+    Match(bool, Vec<Pattern>, Option<Ex>),
+    Unwind(Ex, usize),
+    With(Proj, Option<Ex>),
+    /// keys, aggregates, projection over key/aggregate columns, WHERE; `ret` = printed as RETURN (no WHERE)
+    Agg(Vec<(usize, Ex)>, Vec<(usize, Agg)>, Proj, Option<Ex>, bool),
+    Return(Proj),
+}
+#[derive(Clone, Debug)]
+pub enum Query { Single(Vec<Clause>), Union(bool, Box<Query>, Box<Query>) }
+
+fn cy_npat(p: &NPat) -> String {
+    format!("({}{})", var_name(p.var), p.labels.iter().map(|l| format!(":{}", label_name(*l))).collect::<String>())
+}
+fn cy_rpat(p: &RPat) -> String {
+    let t = if p.types.is_empty() { String::new() } else { format!(":{}", p.types.iter().map(|t| TYPES[*t].to_string()).collect::<Vec<_>>().join("|")) };
+    let body = format!("[{}{}]", var_name(p.var), t);
+    match p.dir { Dir::Out => format!("-{}->", body), Dir::In => format!("<-{}-", body), Dir::Both => format!("-{}-", body) }
+}
+pub fn cy_pattern(p: &Pattern) -> String {
+    let mut s = cy_npat(&p.start);
+    for (r, n) in &p.hops { s.push_str(&cy_rpat(r)); s.push_str(&cy_npat(n)); }
+    s
+}
+fn cy_agg(a: &Agg) -> String {
+    match a {
+        Agg::CountStar => "count(*)".into(),
+        Agg::Count(e) => format!("count({})", cy_ex(e)),
+        Agg::Sum(e) => format!("sum({})", cy_ex(e)),
+        Agg::Min(e) => format!("min({})", cy_ex(e)),
+        Agg::Max(e) => format!("max({})", cy_ex(e)),
+        Agg::Collect(e) => format!("collect({})", cy_ex(e)),
+    }
+}
+fn cy_proj_tail(p: &Proj) -> String {
+    let mut s = String::new();
+    if !p.order.is_empty() {
+        s.push_str(" ORDER BY ");
+        s.push_str(&p.order.iter().map(|(e, asc)| format!("{}{}", cy_ex(e), if *asc { "" } else { " DESC" })).collect::<Vec<_>>().join(", "));
+    }
+    if let Some(k) = p.skip { s.push_str(&format!(" SKIP {}", k)); }
+    if let Some(k) = p.limit { s.push_str(&format!(" LIMIT {}", k)); }
+    s
+}
+fn cy_proj(kw: &str, p: &Proj) -> String {
+    format!("{}{} {}{}", kw, if p.distinct { " DISTINCT" } else { "" },
+        p.items.iter().map(|(x, e)| format!("{} AS {}", cy_ex(e), var_name(*x))).collect::<Vec<_>>().join(", "), cy_proj_tail(p))
+}
+pub fn cy_clause(c: &Clause) -> String {
+    match c {
+        Clause::Match(opt, ps, w) => format!("{}MATCH {}{}", if *opt { "OPTIONAL " } else { "" },
+            ps.iter().map(cy_pattern).collect::<Vec<_>>().join(", "),
+            match w { Some(e) => format!(" WHERE {}", cy_ex(e)), None => String::new() }),
+        Clause::Unwind(e, x) => format!("UNWIND {} AS {}", cy_ex(e), var_name(*x)),
+        Clause::With(p, w) => format!("{}{}", cy_proj("WITH", p), match w { Some(e) => format!(" WHERE {}", cy_ex(e)), None => String::new() }),
+        Clause::Agg(keys, aggs, p, w, ret) => {
+            // the projection `p` is the identity over the key and aggregate columns, in this order
+            let mut items: Vec<String> = keys.iter().map(|(x, e)| format!("{} AS {}", cy_ex(e), var_name(*x))).collect();
+            items.extend(aggs.iter().map(|(x, a)| format!("{} AS {}", cy_agg(a), var_name(*x))));
+            format!("{}{} {}{}{}", if *ret { "RETURN" } else { "WITH" }, if p.distinct { " DISTINCT" } else { "" }, items.join(", "), cy_proj_tail(p),
+                match w { Some(e) => format!(" WHERE {}", cy_ex(e)), None => String::new() })
+        }
+        Clause::Return(p) => cy_proj("RETURN", p),
+    }
+}
+pub fn cy_query(q: &Query) -> String {
+    match q {
+        Query::Single(cs) => cs.iter().map(cy_clause).collect::<Vec<_>>().join(" "),
+        Query::Union(all, a, b) => format!("{} UNION{} {}", cy_query(a), if *all { " ALL" } else { "" }, cy_query(b)),
+    }
+}
+
+fn coq_npat(p: &NPat, g: &MGraph) -> String {
+    format!("(mk_npat {} {})", coq_n(p.var as u128), coq_list(&p.labels, |l| coq_n(label_model_id(g, *l) as u128)))
+}
+fn coq_rpat(p: &RPat, g: &MGraph) -> String {
+    // a type that does not exist gets an id no relationship carries
+    let ids: Vec<u32> = p.types.iter().map(|t| g.type_ids.get(*t).copied().flatten().unwrap_or(UNKNOWN_LABEL_BASE + 100 + *t as u32)).collect();
+    format!("(mk_rpat {} {} {})", coq_n(p.var as u128), coq_list(&ids, |t| coq_n(*t as u128)), match p.dir { Dir::Out => "DOut", Dir::In => "DIn", Dir::Both => "DBoth" })
+}
+fn coq_pattern(p: &Pattern, g: &MGraph) -> String {
+    format!("(mk_pattern {} {})", coq_npat(&p.start, g), coq_list(&p.hops, |(r, n)| format!("({}, {})", coq_rpat(r, g), coq_npat(n, g))))
+}
+fn coq_opt_nat(o: &Option<usize>) -> String { match o { Some(k) => format!("(Some {}%nat)", k), None => "None".into() } }
+fn coq_opt_ex(o: &Option<Ex>, g: &MGraph) -> String { match o { Some(e) => format!("(Some {})", coq_ex(e, g)), None => "None".into() } }
+fn coq_items(items: &[(usize, Ex)], g: &MGraph) -> String {
+    coq_list(items, |(x, e)| format!("({}, {})", coq_n(*x as u128), coq_ex(e, g)))
+}
+fn coq_proj(p: &Proj, g: &MGraph) -> String {
+    format!("(mk_proj {} {} {} {} {})", coq_items(&p.items, g), coq_bool(p.distinct),
+        coq_list(&p.order, |(e, asc)| format!("({}, {})", coq_ex(e, g), coq_bool(*asc))), coq_opt_nat(&p.skip), coq_opt_nat(&p.limit))
+}
+fn coq_agg(a: &Agg, g: &MGraph) -> String {
+    match a {
+        Agg::CountStar => "ACountStar".into(),
+        Agg::Count(e) => format!("(ACount {})", coq_ex(e, g)),
+        Agg::Sum(e) => format!("(ASum {})", coq_ex(e, g)),
+        Agg::Min(e) => format!("(AMin {})", coq_ex(e, g)),
+        Agg::Max(e) => format!("(AMax {})", coq_ex(e, g)),
+        Agg::Collect(e) => format!("(ACollect {})", coq_ex(e, g)),
+    }
+}
+pub fn coq_clause(c: &Clause, g: &MGraph) -> String {
+    match c {
+        Clause::Match(opt, ps, w) => format!("(CMatch {} {} {})", coq_bool(*opt), coq_list(ps, |p| coq_pattern(p, g)), coq_opt_ex(w, g)),
+        Clause::Unwind(e, x) => format!("(CUnwind {} {})", coq_ex(e, g), coq_n(*x as u128)),
+        Clause::With(p, w) => format!("(CWith {} {})", coq_proj(p, g), coq_opt_ex(w, g)),
+        Clause::Agg(keys, aggs, p, w, _) => format!("(CAgg {} {} {} {})", coq_items(keys, g),
+            coq_list(aggs, |(x, a)| format!("({}, {})", coq_n(*x as u128), coq_agg(a, g))), coq_proj(p, g), coq_opt_ex(w, g)),
+        Clause::Return(p) => format!("(CReturn {})", coq_proj(p, g)),
+    }
+}
+pub fn coq_query(q: &Query, g: &MGraph) -> String {
+    match q {
+        Query::Single(cs) => format!("(QSingle {})", coq_list(cs, |c| coq_clause(c, g))),
+        Query::Union(all, a, b) => format!("(QUnion {} {} {})", coq_bool(*all), coq_query(a, g), coq_query(b, g)),
+    }
+}
+/// identity projection over columns `xs` (the `p` of an aggregating WITH/RETURN)
+pub fn ident_proj(xs: &[usize]) -> Proj {
+    Proj { items: xs.iter().map(|x| (*x, Ex::Var(*x))).collect(), ..Default::default() }
+}
+pub fn empty_mgraph() -> MGraph {
+    MGraph { label_ids: vec![None; LABELS.len()], type_ids: vec![None; TYPES.len()], ..Default::default() }
 }
